@@ -1,6 +1,6 @@
 # C08 - coroutine mutex: FIFO hand-off and no lost request
 import re
-from ..core import norm, relloc, live, calls, evs, Broken, value_origin, Tracer, fmt_trace, rooted, has_back_edge
+from ..core import norm, relloc, live, calls, evs, Broken, value_origin, Tracer, fmt_trace, rooted, has_back_edge, tests, cond_event
 from .. import atomic
 from ..rules import *
 from . import C07
@@ -63,7 +63,7 @@ def try_lock(ctx, db, rid):
                 bad = bad or ('try_lock does not use the CAS try-lock', tr); continue
             won = None
             for it in tr[ri:]:
-                if it.k == 'branch' and it.cond_ev == tr[ri].get('id'):
+                if tests(it, tr[ri]):
                     won = it.val; break
             cons = [c for c in calls(tr) if c.k == 'construct' and norm(c.get('callee')) == 'cocls::mutex::ownership::ownership' and not c.get('copy_or_move')]
             arg = (cons[-1].get('args') or [{}])[0].get('path') if cons else None
